@@ -55,7 +55,9 @@ fn scenario(seed: u64, i: usize, big: bool) -> Scenario {
             src,
             dst,
             unack: rng.chance(1, 4),
-            src_name: format!("src{}_{}.bin", src, k),
+            // a quarter of the Puts are fire-and-forget (the user drops the reply channel): they
+            // consume a transaction id like any other
+            src_name: if rng.chance(1, 4) { format!("ff_src{}_{}.bin", src, k) } else { format!("src{}_{}.bin", src, k) },
             dst_name: format!("dst{}_{}_{}.bin", src, dst, k),
             file: Some(FileSpec { size, class: gen::draw_content(&mut rng, seg as u64), cseed: rng.next_u64() }),
             reqs: vec![],
